@@ -582,6 +582,11 @@ impl<'a> Gen<'a> {
 
     fn bound_expr(&mut self) -> Expr {
         let mb = self.cfg.max_bound;
+        if self.frames.len() == 1 && self.in_while == 0 && self.r.chance(8, 1000) {
+            // a long top-level loop now and then (counts around the 8-bit boundaries)
+            let n = *self.r.pick(&[64, 65, 127, 128, 129, 255, 256, 257, 300]);
+            return Expr::Num(n, self.radix());
+        }
         if self.r.chance(self.cfg.nonpos_bounds, 1000) {
             return match self.r.below(4) {
                 0 => Expr::Num(0, Radix::Dec),
